@@ -106,6 +106,7 @@ package atree
 //@   requires wfADS(a) && fn != nil
 //@   ensures err == nil && len(a.elements) == 0 && a.header.count == 0 && wfADS(a)
 //@   modifies a.elements, a.header, ghost.touched
+//@   loop 1: invariant -1 <= i && i < len(a.elements)
 
 //@ pred inBandADS(a *ArrayDataSlab) = minThreshold <= a.header.size && a.header.size <= maxThreshold
 
@@ -124,3 +125,76 @@ package atree
 //@        as(right, *ArrayDataSlab).header.slabID != SlabIDUndefined && sto[as(right, *ArrayDataSlab).header.slabID] == nil
 //@   modifies a.elements, a.header, a.next, ghost.touched, alloc
 //@   loop 1: invariant 0 <= i && i <= len(a.elements) && leftSize == sum(bs, a.elements, i) && leftSize < midPoint && leftCount == 0
+
+//@ # ---- lending / borrowing / merging (C05: both sides stay in band for every slab size)
+
+//@ pred plainADS(a *ArrayDataSlab) = wfADS(a) && elemsFit(a) && !a.inlined && a.extraData == nil
+
+//@ # to-left lending from the front of a: m elements cover `size` and leave a >= min; m-1 do not cover it
+//@ pred canLendL(a *ArrayDataSlab, size int) = exists m :: 1 <= m && m <= len(a.elements) &&
+//@      sum(bs, a.elements, m) >= size && a.header.size - sum(bs, a.elements, m) >= minThreshold && sum(bs, a.elements, m - 1) < size
+
+//@ # to-right lending from the back of a: the suffix starting at m covers `size` and leaves a >= min; the suffix from m+1 does not cover it
+//@ pred canLendR(a *ArrayDataSlab, size int) = exists m :: 0 <= m && m < len(a.elements) &&
+//@      sum(bs, a.elements, len(a.elements)) - sum(bs, a.elements, m) >= size &&
+//@      a.header.size - (sum(bs, a.elements, len(a.elements)) - sum(bs, a.elements, m)) >= minThreshold &&
+//@      sum(bs, a.elements, len(a.elements)) - sum(bs, a.elements, m + 1) < size
+
+//@ func (a *ArrayDataSlab) CanLendToLeft(size) (r)  serves C05
+//@   requires plainADS(a) && 1 <= size && size <= a.header.size
+//@   ensures r ==> canLendL(a, size)
+//@   ensures !r ==> a.header.size < minThreshold + size + maxInlineArrayElementSize
+//@   pure
+//@   loop 1: invariant 0 <= i && i <= len(a.elements) && lendSize == sum(bs, a.elements, i) && lendSize < size && a.header.size - lendSize >= minThreshold
+
+//@ func (a *ArrayDataSlab) CanLendToRight(size) (r)  serves C05
+//@   requires plainADS(a) && 1 <= size && size <= a.header.size
+//@   ensures r ==> canLendR(a, size)
+//@   ensures !r ==> a.header.size < minThreshold + size + maxInlineArrayElementSize
+//@   pure
+//@   loop 1: invariant -1 <= i && i < len(a.elements) && lendSize == sum(bs, a.elements, len(a.elements)) - sum(bs, a.elements, i + 1) && lendSize < size && a.header.size - lendSize >= minThreshold
+
+//@ func (a *ArrayDataSlab) LendToRight(slab) (err)  serves C01 C05 C06
+//@   requires is(slab, *ArrayDataSlab) && a != slab && plainADS(a) && plainADS(as(slab, *ArrayDataSlab))
+//@   requires a.header.size <= maxThreshold && as(slab, *ArrayDataSlab).header.size < minThreshold && as(slab, *ArrayDataSlab).header.size >= 21
+//@   requires canLendR(a, minThreshold - as(slab, *ArrayDataSlab).header.size)
+//@   requires a.header.count + as(slab, *ArrayDataSlab).header.count <= 4294967295
+//@   ensures err == nil
+//@   ensures[C01] len(a.elements) + len(as(slab, *ArrayDataSlab).elements) == len(old(a.elements)) + len(old(as(slab, *ArrayDataSlab).elements)) &&
+//@        len(a.elements) <= len(old(a.elements)) &&
+//@        (forall k :: 0 <= k && k < len(a.elements) ==> a.elements[k] == old(a.elements)[k]) &&
+//@        (forall k :: 0 <= k && k < len(old(a.elements)) - len(a.elements) ==> as(slab, *ArrayDataSlab).elements[k] == old(a.elements)[len(a.elements) + k]) &&
+//@        (forall k :: 0 <= k && k < len(old(as(slab, *ArrayDataSlab).elements)) ==> as(slab, *ArrayDataSlab).elements[len(old(a.elements)) - len(a.elements) + k] == old(as(slab, *ArrayDataSlab).elements)[k])
+//@   ensures[C05] inBandADS(a) && inBandADS(as(slab, *ArrayDataSlab))
+//@   ensures[C06] plainADS(a) && plainADS(as(slab, *ArrayDataSlab))
+//@   modifies a.elements, a.header, as(slab, *ArrayDataSlab).elements, as(slab, *ArrayDataSlab).header, ghost.touched
+//@   loop 1: invariant -1 <= i && i < len(a.elements) && leftCount == i + 1 && leftSize == 21 + sum(bs, a.elements, i + 1) && leftSize >= minThreshold &&
+//@        (leftSize == a.header.size || leftSize >= midPoint || size - leftSize < minThreshold + maxInlineArrayElementSize)
+
+//@ func (a *ArrayDataSlab) BorrowFromRight(slab) (err)  serves C01 C05 C06
+//@   requires is(slab, *ArrayDataSlab) && a != slab && plainADS(a) && plainADS(as(slab, *ArrayDataSlab))
+//@   requires as(slab, *ArrayDataSlab).header.size <= maxThreshold && a.header.size < minThreshold && a.header.size >= 21
+//@   requires canLendL(as(slab, *ArrayDataSlab), minThreshold - a.header.size)
+//@   requires a.header.count + as(slab, *ArrayDataSlab).header.count <= 4294967295
+//@   ensures err == nil
+//@   ensures[C01] len(a.elements) + len(as(slab, *ArrayDataSlab).elements) == len(old(a.elements)) + len(old(as(slab, *ArrayDataSlab).elements)) &&
+//@        len(a.elements) >= len(old(a.elements)) &&
+//@        (forall k :: 0 <= k && k < len(old(a.elements)) ==> a.elements[k] == old(a.elements)[k]) &&
+//@        (forall k :: len(old(a.elements)) <= k && k < len(a.elements) ==> a.elements[k] == old(as(slab, *ArrayDataSlab).elements)[k - len(old(a.elements))]) &&
+//@        (forall k :: 0 <= k && k < len(as(slab, *ArrayDataSlab).elements) ==> as(slab, *ArrayDataSlab).elements[k] == old(as(slab, *ArrayDataSlab).elements)[k + len(a.elements) - len(old(a.elements))])
+//@   ensures[C05] inBandADS(a) && inBandADS(as(slab, *ArrayDataSlab))
+//@   ensures[C06] plainADS(a) && plainADS(as(slab, *ArrayDataSlab))
+//@   modifies a.elements, a.header, as(slab, *ArrayDataSlab).elements, as(slab, *ArrayDataSlab).header, ghost.touched
+//@   loop 1: invariant 0 <= i && i <= len(as(slab, *ArrayDataSlab).elements) && leftCount == a.header.count + i &&
+//@        leftSize == a.header.size + sum(bs, as(slab, *ArrayDataSlab).elements, i) && leftSize <= midPoint
+
+//@ func (a *ArrayDataSlab) Merge(slab) (err)  serves C01 C05 C06 C09
+//@   requires is(slab, *ArrayDataSlab) && a != slab && plainADS(a) && plainADS(as(slab, *ArrayDataSlab))
+//@   requires a.header.size + as(slab, *ArrayDataSlab).header.size <= 4294967295 && a.header.count + as(slab, *ArrayDataSlab).header.count <= 4294967295
+//@   ensures err == nil
+//@   ensures[C01] len(a.elements) == len(old(a.elements)) + len(old(as(slab, *ArrayDataSlab).elements)) &&
+//@        (forall k :: 0 <= k && k < len(old(a.elements)) ==> a.elements[k] == old(a.elements)[k]) &&
+//@        (forall k :: 0 <= k && k < len(old(as(slab, *ArrayDataSlab).elements)) ==> a.elements[len(old(a.elements)) + k] == old(as(slab, *ArrayDataSlab).elements)[k])
+//@   ensures[C06] plainADS(a) && a.header.size == old(a.header.size) + old(as(slab, *ArrayDataSlab).header.size) - 21
+//@   ensures[C09] a.next == old(as(slab, *ArrayDataSlab).next) && a.header.slabID == old(a.header.slabID)
+//@   modifies a.elements, a.header, a.next, ghost.touched
